@@ -78,6 +78,8 @@ BadCreates(now) ==
     [F EXCEPT !.sched = <<[t |-> F.end + 1, w |-> Half]>>],
     [F EXCEPT !.sched = <<[t |-> F.end + 2, w |-> Half], [t |-> F.end + 1, w |-> D - Half]>>],
     [F EXCEPT !.sched = <<[t |-> F.end + 1, w |-> 0], [t |-> F.end + 2, w |-> D]>>],
+    [F EXCEPT !.sched = <<[t |-> F.end + 1, w |-> Half], [t |-> F.end + 1, w |-> D - Half]>>],    \* two instalments at the same release time
+    [B EXCEPT !.sched = <<[t |-> B.end + 2, w |-> Half], [t |-> B.end + 2, w |-> D - Half]>>],
     [F EXCEPT !.sellAmt = 1000000],
     [B EXCEPT !.minPrice = 0], [B EXCEPT !.rate = 0],
     [B EXCEPT !.maxExt = 31], [B EXCEPT !.sellDenom = "bad"] }
